@@ -233,6 +233,18 @@ class Hub:
 
         self.RegPort = RegPort
 
+    def fresh_loop(self):
+        """A new virtual-time loop (clock back at 0) for every case: what a case does must not depend on what ran before
+        it in the same worker — same-instant timer ties are decided by floating-point sums of absolute loop times — so
+        that a replayed case behaves exactly as it did inside its stream."""
+        try:
+            self.loop.close()
+        except Exception:
+            pass
+        self.loop = vloop.new_loop()
+        if hasattr(self.core_main, '_update_lock'):
+            self.core_main._update_lock = None      # an asyncio.Lock belongs to the loop it was first used on
+
     def now_ms(self):
         return int(round(self.loop.time() * 1000))
 
@@ -335,27 +347,44 @@ class Hub:
         else:
             raise ValueError(kind)
 
+    @staticmethod
+    def _busy(ports):
+        """Something the property calls pending: an evaluation queued or running, a write running — or queued but not yet
+        picked up by the writer task (the instant after `_eval_and_write` submitted it; the write queue is named by the
+        property's anchors, there is no public accessor; its absence degrades to 'not observed')."""
+        for p in ports:
+            if p.has_pending_eval() or p.is_writing() or p.writes_in_flight:
+                return True
+            q = getattr(p, '_write_value_queue', None)
+            if q is not None and hasattr(q, 'qsize') and q.qsize() > 0:
+                return True
+        return False
+
     async def _quiesce(self, ports, max_rounds=150):
         """Let virtual time run until nothing the property talks about moves during a whole window: no evaluation
         pending, no write queued or running, no change of any last-read value, no driver write call, for K ticks
         plus the longest possible polling pass."""
         longest = sum(max(p.rlat) for p in ports) + max([max(p.wlat) for p in ports] + [0])
         window = (3 * self.tick_ms + 2 * longest + 10) / 1000.0
+
+        def snap():
+            return ([canon(p.get_last_read_value()) for p in ports], [p.n_write for p in ports], [p.reg for p in ports])
         for _ in range(max_rounds):
-            before = ([canon(p.get_last_read_value()) for p in ports], [p.n_write for p in ports],
-                      [p.reg for p in ports])
+            before = snap()
             reads = [p.n_read_done for p in ports]
             await asyncio.sleep(window)
-            busy = any(p.has_pending_eval() or p.is_writing() or p.writes_in_flight for p in ports)
-            # an enabled port that was not polled during a whole window is suspended after a read error (a port disabled
-            # while its read call is running makes its read transform fail; the hub retries after
-            # _PORT_READ_ERROR_RETRY_INTERVAL seconds): not quiescent yet
+            busy = self._busy(ports)
+            # an enabled port that was not polled during a whole window is suspended after a read error (the hub retries
+            # after _PORT_READ_ERROR_RETRY_INTERVAL seconds): not quiescent yet
             # (a port whose driver is faulting right now only has to have failed once since the fault began)
             busy = busy or any(p.is_enabled() and (p.n_read_done - r < 2 if p.fault is None else p.n_fail == 0)
                                for p, r in zip(ports, reads))
-            after = ([canon(p.get_last_read_value()) for p in ports], [p.n_write for p in ports],
-                     [p.reg for p in ports])
-            if not busy and before == after:
+            if busy or before != snap():
+                continue
+            # tasks woken at this very instant (an evaluation dequeued right now, a write just submitted) get their turn
+            for _ in range(4):
+                await asyncio.sleep(0)
+            if not self._busy(ports) and before == snap():
                 return True
         return False
 
